@@ -132,6 +132,7 @@ type Spec struct {
 	EKU        []x509.ExtKeyUsage
 	CritTSEKU  bool // critical extended key usage "timestamping" (RFC 3161 TSA leaf)
 	NoKeyUsage bool
+	KeyUsage   x509.KeyUsage // if non-zero, replaces the default key usage
 	Key        crypto.Signer
 	CRLSign    bool
 }
@@ -178,6 +179,9 @@ func Mint(spec Spec, parent *Cert) *Cert {
 	}
 	if spec.NoKeyUsage {
 		tmpl.KeyUsage = 0
+	}
+	if spec.KeyUsage != 0 {
+		tmpl.KeyUsage = spec.KeyUsage
 	}
 	if spec.CritTSEKU {
 		tmpl.ExtKeyUsage = nil
